@@ -181,6 +181,11 @@ func checkC10() fw.Check {
 			// request level: the same fault classes hitting ONE participant (a path run or an end-to-end probe) of a
 			// RunTraceroute request: the request returns an error wrapping the cause and no result, every handle of
 			// every participant is closed exactly once
+			for _, op := range []string{"filter", "deadline", "read"} {
+				op := op
+				id := fmt.Sprintf("C10/request/tcp-prefer-sack/%s/participant0", op)
+				cases = append(cases, fw.Case{ID: id, Bubble: true, Run: func(c *fw.Ctx) { runC10Request(c, id, "tcp-prefer-sack", op, 0) }})
+			}
 			for _, proto := range []string{"udp", "icmp", "tcp"} {
 				for _, op := range []string{"factory", "filter", "write", "read"} {
 					for j := 0; j < 4; j++ {
@@ -207,11 +212,20 @@ func checkC10() fw.Check {
 
 func runC10Request(c *fw.Ctx, id, proto, op string, j int) {
 	resetProcessState()
-	v := map[string]refmatch.Variant{"udp": refmatch.VariantByName("udp4"), "icmp": refmatch.VariantByName("icmp4"), "tcp": refmatch.VariantByName("syn")}[proto]
+	v := map[string]refmatch.Variant{"udp": refmatch.VariantByName("udp4"), "icmp": refmatch.VariantByName("icmp4"), "tcp": refmatch.VariantByName("syn"), "tcp-prefer-sack": refmatch.VariantByName("syn")}[proto]
 	target := drive.TargetFor(v, 60+c.Worker)
 	params := traceroute.TracerouteParams{Hostname: target.String(), Port: 33434, Protocol: proto, MinTTL: 1, MaxTTL: 4, Delay: 2, Timeout: 30 * time.Millisecond,
 		TCPMethod: traceroute.TCPConfigSYN, TracerouteQueries: 2, E2eQueries: 2}
-	env, err := newReqEnv(c, params, target, 33434, false)
+	port, peer := uint16(33434), false
+	if proto == "tcp-prefer-sack" {
+		// the fault hits the SACK attempt of a prefer_sack run while it reads the handshake (or installs its filters): a
+		// broken capture handle is not "the target does not support SACK" - no SYN trace may paper over it
+		params.Protocol, params.TCPMethod, params.TracerouteQueries, params.E2eQueries = "tcp", traceroute.TCPConfigPreferSACK, 1, 0
+		port, peer = uint16(29000+c.Worker), true
+		params.Port = int(port)
+		params.Timeout = 300 * time.Millisecond
+	}
+	env, err := newReqEnv(c, params, target, port, peer)
 	if err != nil {
 		c.Inconclusive(err.Error())
 		return
